@@ -22,6 +22,7 @@ import (
 	"crypto/subtle"
 	encodingASN1 "encoding/asn1"
 	"hash"
+	"sync"
 
 	"github.com/cossacklabs/acra/keystore/v2/keystore/asn1"
 )
@@ -30,12 +31,14 @@ var separator = []byte(": ")
 
 // SignSha256 computes HMAC-SHA-256 signatures.
 type SignSha256 struct {
-	hmac hash.Hash
+	// one key store handle serves many goroutines: the HMAC state is used by one of them at a time
+	mutex sync.Mutex
+	hmac  hash.Hash
 }
 
 // NewSignSha256 makes a new HMAC-SHA-256 signature computer keyed by given key.
 func NewSignSha256(key []byte) (*SignSha256, error) {
-	return &SignSha256{hmac.New(sha256.New, key)}, nil
+	return &SignSha256{hmac: hmac.New(sha256.New, key)}, nil
 }
 
 // AlgorithmOID returns ASN.1 OID for this algorithm.
@@ -45,6 +48,8 @@ func (s *SignSha256) AlgorithmOID() encodingASN1.ObjectIdentifier {
 
 // Sign provided data in given context.
 func (s *SignSha256) Sign(data, context []byte) []byte {
+	s.mutex.Lock()
+	defer s.mutex.Unlock()
 	s.hmac.Reset()
 	s.hmac.Write(context)
 	s.hmac.Write(separator)
